@@ -104,6 +104,9 @@ func (w *World) Generate(key string) (*FuncVC, error) {
 		return nil, fmt.Errorf("no function %q in the loaded program", key)
 	}
 	fc := w.CS.Funcs[key]
+	if b := w.CS.Body[key]; b != nil {
+		fc = b // the function's own code is checked against its body contract
+	}
 	if fc == nil {
 		fc = &FuncContract{Key: key, Opts: map[string]string{}, Name: fn.Name()}
 	}
